@@ -75,7 +75,8 @@ def main():
     # ... and of operands that live in a data manager, stored and evicted: every leaf a ghost when the operation starts
     for fam in (['OO', 'II'] if quick else ['OO', 'II', 'LF', 'fs', 'QQ', 'IO']):
         for impl in ('c', 'py'):
-            plan.append(dict(fam=fam, impl=impl, emb='mid', nkeys=3, ghost=True, pure=(impl == 'py'),
+            # (5 keys: trees of three and more leaves - the range search loads the end leaves, the inner ones stay ghosts)
+            plan.append(dict(fam=fam, impl=impl, emb='mid', nkeys=5, ghost=True, pure=(impl == 'py'),
                              seed=ck.seed * 100 + 80 + len(plan), maxpairs=(400 if impl == 'c' else 150) if quick else 8000))
     run_setops(ck, plan, 'C10')
     ck.assumptions += ['operands hold keys of the family', 'first operand of difference and of the operators is a BTrees container']
